@@ -1,3 +1,4 @@
+import inspect
 import operator
 from functools import wraps
 from typing import Any, Callable, Dict, List, Optional, Type, Union
@@ -339,6 +340,12 @@ class AstToDjangoQVisitor(visitor.NodeVisitor):
                 raise ex.UnsupportedFunctionException(func_name + "<List>")
             else:
                 args.append(arg)
+
+        try:
+            inspect.signature(q_gen).bind(*args, **kwargs)
+        except TypeError:
+            # E.g. a named parameter the function does not have: `length(x=s)`
+            raise ex.ArgumentTypeException(func_name)
 
         res = q_gen(*args, **kwargs)
         return res
